@@ -299,6 +299,9 @@ def mutate(g, base: bytes, mut: str, a: int, b: int, blob: bytes) -> bytes:
         return base + fill * k
     if mut == "extended_mid":
         cut = (a // 7) % nominal
+        if g == "G2" and a % 3 == 0:
+            cut, fill = 48, b"\x00"          # zero bytes exactly between the two 48-byte words: the second
+            #                                    word keeps its integer value if it is read as "everything after byte 48"
         return base[:cut] + fill * k + base[cut:]
     if mut == "flags":
         v = int.from_bytes(base, "big")
@@ -395,6 +398,11 @@ def t_total(ctx, shard, nshards, n):
             k += 1
             ex.append(build((suite, k, m if side == 0 else "valid", m if side else "valid", 12345 + k, k, 777 + k,
                              k + 1, b"\x5a" * 60, b"\xa5" * 120, 1 + k % 4, k, False)))
+    for suite_ in sc.SUITES:
+        sk, pk, msg, sig = honest(suite_, 2)
+        for k_ in (1, 2, 48):
+            ex.append({"suite": suite_, "pk": hx(pk), "sig": hx(sig[:48] + bytes(k_) + sig[48:]), "msg": hx(msg),
+                       "pk_mut": "valid", "sig_mut": "extended_mid", "n": 1, "pos": 0, "honest": False})
     for lead in (b"\x00", b"\x01", b"\xff" * 10):
         sk, pk, msg, sig = honest("pop", 0)
         ex.append({"suite": "pop", "pk": hx(lead + pk), "sig": hx(sig), "msg": hx(msg), "pk_mut": "extended_lead",
